@@ -64,7 +64,7 @@ class C15(Check):
                    'frames fit the prefix size (len < 2**(8*prefix_size))']
     ANCHORS = ['rxsci/framing/line.py', 'rxsci/framing/length_prefix.py']
     REQUIRED_TAGS = ['large-frames-of-exactly-the-same-size', 'reentrant-consumer', 'item-is-a-framed-batch-cut-on-its-record-boundaries', 'line', 'lp1', 'lp2', 'lp4', 'lp8', 'little', 'big', 'empties', 'trunc',
-                     'cut-in-prefix', 'cut-in-frame', 'empty-list', 'empty-item', 'stream>64KiB', 'chunks-as-bytearray', 'chunks-as-memoryview', 'items-as-str-subclass-instances']
+                     'cut-in-prefix', 'cut-in-frame', 'empty-list', 'empty-item', 'stream>64KiB', 'chunks-as-bytearray', 'chunks-as-memoryview', 'items-as-str-subclass-instances', 'lines-over-64Ki-cut-at-their-terminators']
 
     REQUIRED_OBSERVED = ['triples_of_staggered_subscriptions', 'bytes_like_runs']
 
@@ -165,6 +165,23 @@ class C15(Check):
                 cuts = tuple(range(size, len(s), size)) if rng.random() < 0.7 else chunking.random_cuts(rng, len(s), 30)
                 yield self._mk(big, items, cuts, empties=False)
                 continue
+            if k % 150 == 60:
+                # records far longer than 64 KiB written as `write(record); write(terminator)` (what print() does): every chunk boundary
+                # falls exactly between a payload and its terminator, or right behind the terminator
+                lcfg = cfgs[0]
+                assert lcfg['framing'] == 'line'
+                unit = ''.join(rng.choice('ab \x00\r\xe9') for _ in range(1000))
+                items = [unit * rng.choice([66, 70, 200]), 'b', unit * rng.choice([66, 131]), '', 'tail'][:rng.choice([3, 5])]
+                s = _reference_stream(lcfg, items)
+                ends, pos = [], 0
+                for it in items:
+                    pos += len(it)
+                    ends.append(pos)        # the position of this item's terminator
+                    pos += 1
+                style = (k // 150) % 3
+                cuts = sorted(set(ends if style == 0 else [e + 1 for e in ends] if style == 1 else ends + [e + 1 for e in ends]))
+                yield dict(self._mk(lcfg, items, tuple(c for c in cuts if 0 < c < len(s)), empties=False), long_lines=True)
+                continue
             if k % 150 == 45:
                 # fixed-size large records (tensors of one shape): frames of 1-1.5 MiB, all of EXACTLY the same size, arriving in
                 # 64 KiB blocks - a receive buffer kept from one frame to the next must start empty
@@ -223,6 +240,8 @@ class C15(Check):
             out.tags += ['lp%d' % case['prefix'], case['byteorder']]
         if case.get('equal_large'):
             out.tags.append('large-frames-of-exactly-the-same-size')
+        if case.get('long_lines'):
+            out.tags.append('lines-over-64Ki-cut-at-their-terminators')
         if case.get('envelope'):
             out.tags.append('item-is-a-framed-batch-cut-on-its-record-boundaries')
         if not items:
